@@ -841,7 +841,8 @@ void changed_value_posts::operator()(post_t& post)
 }
 
 void subtotal_posts::report_subtotal(const char *                     spec_fmt,
-                                     const optional<date_interval_t>& interval)
+                                     const optional<date_interval_t>& interval,
+                                     const optional<string>&          literal_payee)
 {
   if (component_posts.empty())
     return;
@@ -869,7 +870,11 @@ void subtotal_posts::report_subtotal(const char *                     spec_fmt,
   component_posts.clear();
 
   std::ostringstream out_date;
-  if (spec_fmt) {
+  if (literal_payee) {
+    // a payee name is text, not a date format: it must not go through strftime
+    out_date << *literal_payee;
+  }
+  else if (spec_fmt) {
     out_date << format_date(*range_finish, FMT_CUSTOM, spec_fmt);
   }
   else if (date_format) {
@@ -1147,7 +1152,7 @@ void posts_as_equity::report_subtotal()
 void by_payee_posts::flush()
 {
   foreach (payee_subtotals_map::value_type& pair, payee_subtotals)
-    pair.second->report_subtotal(pair.first.c_str());
+    pair.second->report_subtotal(NULL, none, pair.first);
 
   item_handler<post_t>::flush();
 
